@@ -2,6 +2,7 @@ package c02
 
 import (
 	"fmt"
+	"strings"
 
 	"verif/core"
 	"verif/explore"
@@ -46,7 +47,7 @@ type profile struct {
 	walk      bool  // stacks form a properly nested walk (else arbitrary per run)
 	ts        []int // 0 none, 1 start+400ms, 2 start+1ms
 	texts     []string
-	render    int // 0 default, 1 full, 2 text-structure subset, 3 header subset, 4 block subset
+	rend      string // space separated rendering choice points that are explored ("*" = all)
 }
 
 func fullProfile(thorough bool) profile {
@@ -54,7 +55,7 @@ func fullProfile(thorough bool) profile {
 		ncues: []int{1, 0, 2}, starts: allStarts, ends: []int{0, 1, 2, 3}, ids: []int{0, 1, 2}, comments: []int{0, 1, 2},
 		settings: 2, nregions: []int{0, 1, 2}, regAttrs: true, regionRef: true, nstyles: []int{0, 1, 2}, styleKind: []int{0, 1},
 		tsmaps: []int{0, 1, 2, 3, 4}, nlines: []int{1, 2, 0}, voices: []string{"", "Bob", "Bob Smith"}, nruns: []int{1, 2},
-		tags: allTags, depth: 3, walk: true, ts: []int{0, 1, 2}, texts: allTexts, render: 1,
+		tags: allTags, depth: 3, walk: true, ts: []int{0, 1, 2}, texts: allTexts, rend: "*",
 	}
 	if thorough {
 		p.ncues = []int{1, 0, 2, 3}
@@ -70,47 +71,84 @@ func base() profile {
 		ts: []int{0}, texts: []string{"x"}}
 }
 
-// core product A: text structure (lines x runs x nested tag walks x inline timestamps x voice x tag rendering)
-func coreA(thorough bool) profile {
+// core products A1/A2: text structure (runs resp. lines x nested tag walks x inline timestamps x voice x tag rendering)
+func coreA(lines bool, thorough bool) profile {
 	p := base()
-	p.nlines = []int{1, 2}
-	p.nruns = []int{1, 2}
+	if lines {
+		p.nlines = []int{2}
+	} else {
+		p.nruns = []int{1, 2}
+	}
 	p.tags = []vtt.Tag{tagB, tagRed, tagLang}
 	p.depth = 2
 	p.ts = []int{0, 1}
 	p.voices = []string{"", "Bob"}
-	p.render = 2
+	p.rend = "lazy leaveopen tsbeforetags closevoice"
 	if thorough {
 		p.tags = []vtt.Tag{tagB, tagI, tagRed, tagLang}
-		p.texts = []string{"x", "a b"}
+		if !lines {
+			p.nruns = []int{1, 2, 3}
+			p.rend = "lazy tsbeforetags"
+		}
 	}
 	return p
 }
 
-// core product B: cue header (count, identifier, comments, every subset of settings, region reference, timing forms)
-func coreB() profile {
+// core product A3: two cues (tags must not leak from one cue into the next, however they are terminated)
+func coreA3() profile {
 	p := base()
-	p.ncues = []int{1, 2}
+	p.ncues = []int{2}
+	p.tags = []vtt.Tag{tagB, tagRed}
+	p.depth = 2
+	p.voices = []string{"", "Bob"}
+	p.rend = "lazy leaveopen closevoice blank eof"
+	return p
+}
+
+// core product B1: one cue header (identifier, comments, every subset of settings, region reference, timing forms)
+func coreB1() profile {
+	p := base()
 	p.starts = []int64{1000, 3600000}
 	p.ids = []int{0, 1}
 	p.comments = []int{0, 1, 2}
 	p.settings = 1
 	p.nregions = []int{1}
 	p.regionRef = true
-	p.render = 3
+	p.rend = "eol shorttime settingssep noteblocks"
 	return p
 }
 
-// core product C: document blocks (regions with every subset of attributes, STYLE blocks, timestamp map, header forms)
-func coreC() profile {
+// core product B2: two cues (identifier / comment / region attachment to the right cue)
+func coreB2() profile {
+	p := base()
+	p.ncues = []int{2}
+	p.ids = []int{0, 1, 2}
+	p.comments = []int{0, 1, 2}
+	p.nregions = []int{1}
+	p.regionRef = true
+	p.rend = "eol blank noteblocks eof"
+	return p
+}
+
+// core product C1: 0..2 regions with every subset of attributes, region reference
+func coreC1() profile {
 	p := base()
 	p.nregions = []int{0, 1, 2}
 	p.regAttrs = true
 	p.regionRef = true
+	p.rend = "eol regionblocks"
+	return p
+}
+
+// core product C2: STYLE blocks, timestamp map, header forms
+func coreC2() profile {
+	p := base()
+	p.nregions = []int{0, 1}
+	p.regionRef = true
 	p.nstyles = []int{0, 1, 2}
 	p.styleKind = []int{0, 1}
-	p.tsmaps = []int{0, 1}
-	p.render = 4
+	p.tsmaps = []int{0, 1, 3}
+	p.rend = "eol bom headertext blank maprev"
 	return p
 }
 
@@ -131,7 +169,7 @@ func coreW(thorough bool) profile {
 func writeBall(thorough bool) profile {
 	p := fullProfile(thorough)
 	p.walk = false
-	p.render = 0
+	p.rend = ""
 	return p
 }
 
@@ -256,52 +294,90 @@ func gen(c *explore.C, p profile) Case {
 		d.Cues = append(d.Cues, cue)
 	}
 	r := vtt.DefaultRender()
-	eol := func() { r.EOL = explore.Pick(c, "eol", "\n", "\r\n", "\r") }
-	switch p.render {
-	case 1:
-		eol()
+	on := func(site string) bool {
+		return p.rend == "*" || strings.Contains(" "+p.rend+" ", " "+site+" ")
+	}
+	if on("eol") {
+		r.EOL = explore.Pick(c, "eol", "\n", "\r\n", "\r")
+	}
+	if on("bom") {
 		r.BOM = c.Bool("bom")
+	}
+	if on("shorttime") {
 		r.ShortTime = c.Bool("shorttime")
+	}
+	if on("headertext") {
 		r.HeaderText = explore.Pick(c, "headertext", "", " - title", "\tsome text")
+	}
+	if on("blank") {
 		r.Blank = explore.Pick(c, "blank", 1, 2)
+	}
+	if on("settingssep") {
 		r.SettingsSep = explore.Pick(c, "settingssep", " ", "\t", "  ")
+	}
+	if on("settingsrev") {
 		r.SettingsRev = c.Bool("settingsrev")
+	}
+	if on("eof") {
 		r.EOF = c.Choose("eof", 4)
+	}
+	if on("lazy") {
 		r.Lazy = c.Bool("lazy")
+	}
+	if on("leaveopen") {
 		r.LeaveOpen = c.Bool("leaveopen")
+	}
+	if on("tsbeforetags") {
 		r.TSBeforeTags = c.Bool("tsbeforetags")
+	}
+	if on("closevoice") {
 		r.CloseVoice = c.Bool("closevoice")
+	}
+	if on("voiceclass") {
 		r.VoiceClass = c.Bool("voiceclass")
+	}
+	if on("noteblocks") {
 		r.NoteBlocks = c.Bool("noteblocks")
+	}
+	if on("regionblocks") {
 		r.RegionBlocks = c.Bool("regionblocks")
+	}
+	if on("maprev") {
 		r.MapRev = c.Bool("maprev")
-	case 2:
-		r.Lazy = c.Bool("lazy")
-		r.LeaveOpen = c.Bool("leaveopen")
-		r.TSBeforeTags = c.Bool("tsbeforetags")
-		r.CloseVoice = c.Bool("closevoice")
-	case 3:
-		eol()
-		r.ShortTime = c.Bool("shorttime")
-		r.SettingsSep = explore.Pick(c, "settingssep", " ", "\t")
-		r.NoteBlocks = c.Bool("noteblocks")
-	case 4:
-		eol()
-		r.BOM = c.Bool("bom")
-		r.HeaderText = explore.Pick(c, "headertext", "", " - title")
-		r.Blank = explore.Pick(c, "blank", 1, 2)
-		r.RegionBlocks = c.Bool("regionblocks")
-		r.EOF = explore.Pick(c, "eof", 0, 1)
 	}
 	return Case{Doc: d, Render: r}
 }
 
+type stage struct {
+	sub  string
+	p    profile
+	b    int
+	read bool
+}
+
+func stages(thorough bool) []stage {
+	bound := 3
+	st := []stage{
+		{"coreA1", coreA(false, thorough), -1, true},
+		{"coreA2", coreA(true, thorough), -1, true},
+		{"coreA3", coreA3(), -1, true},
+		{"coreB1", coreB1(), -1, true},
+		{"coreB2", coreB2(), -1, true},
+		{"coreC1", coreC1(), -1, true},
+		{"coreC2", coreC2(), -1, true},
+		{"coreW", coreW(thorough), -1, false},
+		{"ball", fullProfile(thorough), bound, true},
+		{"wball", writeBall(thorough), bound, false},
+	}
+	if thorough {
+		st = append(st, stage{"ball4", fullProfile(false), 4, true})
+	}
+	return st
+}
+
 func run(c *core.Ctx) {
 	thorough := c.Tier == core.Thorough
-	bound := 2
-	if thorough {
-		bound = 3
-	}
+	bound := 3
 	var cs Case
 	visit := func(sub string, read bool) func(x *explore.C) bool {
 		return func(x *explore.C) bool {
@@ -345,19 +421,7 @@ func run(c *core.Ctx) {
 			return c.Evals%4096 != 0 || !c.Expired()
 		}
 	}
-	for _, st := range []struct {
-		sub  string
-		p    profile
-		b    int
-		read bool
-	}{
-		{"coreA", coreA(thorough), -1, true},
-		{"coreB", coreB(), -1, true},
-		{"coreC", coreC(), -1, true},
-		{"coreW", coreW(thorough), -1, false},
-		{"ball", fullProfile(thorough), bound, true},
-		{"wball", writeBall(thorough), bound, false},
-	} {
+	for _, st := range stages(thorough) {
 		p := st.p
 		n := explore.Explore(st.b, func(x *explore.C) { cs = gen(x, p) }, visit(st.sub, st.read))
 		if c.Shard == 0 {
